@@ -516,5 +516,22 @@ theorem ref_decode (k : Kind) (v : Val) : Refines (decode k v) (Fast.decode k v)
   · exact ref_checked _ _ _ (ref_unmarshalRewards v)
   · exact ref_checked _ _ _ (ref_unmarshalDataFrame v)
 
+/-- the hand-written path of the CURRENT tree from the tree the byte parser would deliver (parser limits first) -/
+def decodeLimited (k : Kind) (v : Val) : Outcome Node :=
+  if parserAccepts (Cbor.stats 64 v) then decode k v else .err "cbor: exceeded max number of elements / nested levels"
+
+/-- whatever the pinned model decodes successfully the repaired one decodes to the same node -/
+theorem decode_ok_of_pinned_ok {k : Kind} {v : Val} {n : Node} (h : Fast.decode k v = .ok n) : decode k v = .ok n := by
+  rcases ref_decode k v with h' | ⟨w, h'⟩
+  · rw [← h', h]
+  · rw [h] at h'; cases h'
+
+theorem decodeLimited_ok_of_pinned_ok {k : Kind} {v : Val} {n : Node} (h : Fast.decodeLimited k v = .ok n) :
+    decodeLimited k v = .ok n := by
+  unfold Fast.decodeLimited at h; unfold decodeLimited
+  split
+  · rename_i hp; rw [if_pos hp] at h; exact decode_ok_of_pinned_ok h
+  · rename_i hp; rw [if_neg hp] at h; cases h
+
 end FastFixed
 end Ledger
